@@ -174,6 +174,21 @@ def run(case, ctx):
                 if g.shape != want.shape or err_exact(g, want) > tol:
                     viols.append(viol("rollout-output-order", f"returned block {t} is not the n one-step predictions in time order per channel (shape {g.shape} vs {want.shape}); {key}", got=small(g), want=small(want)))
                     break
+    # the same rollout traced under jit (linear family: a pure jax model); must agree with the eager rollout by type
+    if not viols and case["family"] == "linear":
+        import jax
+
+        def pure_model(xin, aux=None):
+            return geom.MultiImage({t: jnp.einsum("oc,c...->o...", jnp.asarray(W[t]), xin[t]) for t, cd, _ in sig if cd > 0}, D, torus), aux
+
+        try:
+            gj = jax.jit(lambda z: ml.autoregressive_map(pure_model, z, None, past, n_steps, const_dict)[0])(x)
+            for t in got.keys():
+                if t not in gj or np.asarray(gj[t]).shape != np.asarray(got[t]).shape or err_exact(gj[t], got[t]) > 1e-4:
+                    viols.append(viol("rollout-under-jit", f"jit(autoregressive_map) differs from the eager rollout for block {t}; {key}"))
+                    break
+        except Exception as e:
+            viols.append(viol(f"rollout-exception-{type(e).__name__}", f"jit rollout raised {type(e).__name__}: {str(e)[:200]}; {key}"))
     nontrivial = (n_steps >= 2 and past >= 2) or bool(const_dict)
     return result(key, viols, nontrivial, evals=len(seen_inputs) + 1, obs={"model_inputs_checked": len(seen_inputs), "autoregressive_step_calls": _step_calls[0] - steps_before},
                   hist={"D": D, "family": case["family"], "n": n_steps, "past": past, "const_types": len(const_dict), "const_only_types": sum(1 for _, cd, cc in sig if cd == 0 and cc > 0), "ntypes": len(sig)}, sample={"key": key})
